@@ -101,6 +101,26 @@ fn special(o: &mut Out, r: &mut Rng) {
     }
 }
 
+/// lengths at the 3 -> 4 byte varint boundary (2^21): too large for the model's case file, decided
+/// by the independent encoder and a round trip only
+fn big_lengths(o: &mut Out) {
+    for l in [2097151usize, 2097152, 2097153] {
+        for v in [Val::Str(vec![b'a'; l]), Val::Bytes(vec![0x5a; l]), Val::Seq(vec![Val::Unit; l]), Val::Tuple(vec![Val::Bytes(vec![1; l]), Val::unsigned(IK::U8, 7)])] {
+            let what = format!("{} of length {}", match &v { Val::Str(_) => "str", Val::Bytes(_) => "bytes", Val::Seq(_) => "seq of unit", _ => "(bytes, u8)" }, l);
+            o.eval(&("big", &what), true);
+            let got = guarded(|| postcard::to_allocvec(&v));
+            let mut want = Vec::new();
+            let _ = spec::encode(&v, &mut want);
+            match got {
+                Ok(Ok(b)) if b == want => {}
+                Ok(Ok(b)) => o.fail("bytes == wire-format.md encoding", what, format!("{} bytes, prefix {}", b.len(), hex(&b[..b.len().min(8)])), format!("{} bytes, prefix {}", want.len(), hex(&want[..8.min(want.len())]))),
+                other => o.fail("serialisable value is encoded", what, format!("{:?}", other.map(|r| r.map(|b| b.len()))), format!("{} bytes", want.len())),
+            }
+            o.bump("class:boundary_2^21");
+        }
+    }
+}
+
 pub fn run(a: &Args) {
     let mut o = Out::new(&a.cases);
     let mut r = Rng::new(a.seed);
@@ -151,6 +171,7 @@ pub fn run(a: &Args) {
     for (t, v) in gen::boundary_cases() {
         check_value(&mut o, &t, &v, "boundary");
     }
+    big_lengths(&mut o);
     for l in [127usize, 128, 16383, 16384, 16385] {
         let v = Val::CollectStr(vec![vec![b'q'; l / 2], vec![b'r'; l - l / 2]]);
         check_value(&mut o, &Ty::Str, &v, "boundary_collect_str");
